@@ -143,13 +143,17 @@ Section Args.
       else
         let must := List.length (filter (fun x => negb (is_key_suffix x)) rest) in
         let pos := take_while (fun t => negb (is_keyvalue_type t)) (skipn i args) in
+        (* the rest parameter of a configured method keeps its declaration (repaired code) *)
+        let bind := fun v => match tget (w_tbl s) (drop1 d) with
+                             | Some dt => if is_builtin dt then w_tbl s else tset (w_tbl s) (drop1 d) v
+                             | None => tset (w_tbl s) (drop1 d) v
+                             end in
         if Nat.leb (List.length pos) must then
-          SNext {| w_args := args; w_idx := i; w_aster := true; w_tbl := tset (w_tbl s) (drop1 d) MakeAnyArray |}
+          SNext {| w_args := args; w_idx := i; w_aster := true; w_tbl := bind MakeAnyArray |}
         else
           let k := List.length pos - must in
           let collected := firstn k pos in
-          SNext {| w_args := args; w_idx := i + k; w_aster := true;
-                        w_tbl := tset (w_tbl s) (drop1 d) (MakeArray collected) |}
+          SNext {| w_args := args; w_idx := i + k; w_aster := true; w_tbl := bind (MakeArray collected) |}
     else
       let isKey := is_key_suffix d in
       let name := if isKey then remove_suffix d else d in
